@@ -23,9 +23,14 @@ func dumpAll(a Arguments, depth int) reflect.Value {
 	dumpScopeVars(&b, a.runtime.scope, 0)
 	dumpScopeVarsToDepth(&b, a.runtime.parent, depth)
 
-	// globals can be added concurrently (Set.AddGlobal)
+	// globals can be added concurrently (Set.AddGlobal): print a snapshot, so that
+	// the lock is not held while values are formatted (which may panic)
 	a.runtime.set.gmx.RLock()
-	vars = a.runtime.set.globals
+	vars = make(VarMap, len(a.runtime.set.globals))
+	for name, val := range a.runtime.set.globals {
+		vars[name] = val
+	}
+	a.runtime.set.gmx.RUnlock()
 	for i, name := range vars.SortedKeys() {
 		if i == 0 {
 			fmt.Fprintln(&b, "Globals:")
@@ -33,7 +38,6 @@ func dumpAll(a Arguments, depth int) reflect.Value {
 		val := vars[name]
 		fmt.Fprintf(&b, "\t%s:=%#v // %s\n", name, val, val.Type())
 	}
-	a.runtime.set.gmx.RUnlock()
 
 	blockKeys := a.runtime.scope.sortedBlocks()
 	fmt.Fprintln(&b, "Blocks:")
